@@ -998,6 +998,11 @@ impl<T> Table<T> {
 /// header / totals rows has start row > end row: its data range is empty)
 pub open spec fn has_cells(d: Dimensions) -> bool { d.start.0 <= d.end.0 && d.start.1 <= d.end.1 }
 
+/// std::mem::take moves the old value out (assumed, std; what is left behind -- `T::default()` -- is left unconstrained, which only
+/// weakens the assumption): lets a body that parks an option / a field and puts it back be checked on EVERY exit, `?` exits included
+pub assume_specification<T: core::default::Default>[ core::mem::take::<T> ](dest: &mut T) -> (r: T)
+    ensures r == *old(dest);
+
 /// witness for the precondition "tables are loaded" (the API protocol `load_tables()` before `table_by_name`; not a condition on the file)
 proof fn witness_tables_loaded<RS>(x: Xlsx<RS>)
     ensures exists|y: Xlsx<RS>| y.g_tables() is Some,
